@@ -267,7 +267,74 @@ def r7(ctx):
     c06.r5(ctx, P, "C01.R7")
 
 
-RULES = [r1, r2, r3, r4, r5, r6, r7]
+def r8(ctx):
+    """clear deletes from the data store only bytes of blocks that are not held: the hole runs
+    from the block after the nearest held block at or below `start` (or from 0) to the nearest
+    held block at or above `end` (or the tree length), its byte offset is byte_offset(first),
+    and its byte length ends with the byte range of block last - 1.  An off-by-one here
+    (`index` for `index + 1`, `end` for `end - 1`) deletes the bytes of a block that has() still
+    reports and get() still serves."""
+    rule = "C01.R8"
+    fa = ctx.real_body(CLEAR, [BS_CLEAR])
+    if not need(ctx, P, rule, CLEAR, fa):
+        return
+    bo, br, bc = sites(fa, MT_BYTE_OFFSET), sites(fa, BYTE_RANGE_CORE), sites(fa, BS_CLEAR)
+    if not (need(ctx, P, rule, "clear: MerkleTree::byte_offset", bo) and need(ctx, P, rule, "clear: Hypercore::byte_range", br) and need(ctx, P, rule, "clear: BlockStore::clear", bc)):
+        return
+    def is_call(t, callee, arg2):
+        t = strip(t)
+        return t[0] == "call" and len(t) == 4 and t[2] == callee and len(t[3]) == 3 and path_of(strip(t[3][0])) == "self.bitfield" and term_is_lit(t[3][1], 1) and strip(t[3][2]) == ("param", arg2)
+    # first block of the hole
+    firsts = [unwrap_ovf(fa.arg_origin(s, 1)) for s in bo]
+    def first_ok(t):
+        rs = list(t[1]) if t[0] == "join" else [t]
+        zero = [r for r in rs if term_is_lit(r, 0)]
+        succ = [r for r in rs if r[0] == "bin" and r[1] == "Add" and term_is_lit(r[3], 1) and r[2][0] == "some" and is_call(r[2][1], BF_LAST_INDEX_OF, "start")]
+        return len(rs) == 2 and len(zero) == 1 and len(succ) == 1
+    ctx.check(P, rule, "the hole starts right after the nearest held block at or below start", all(first_ok(t) for t in firsts) and len({term_sig(t) for t in firsts}) == 1,
+              "first = last_index_of(true, start).map(|i| i + 1).unwrap_or(0)", "clear computes the first block of the hole as %s" % [term_str(t)[:110] for t in firsts], key="C01|C01.R8|clear|hole start")
+    # the two alternatives belong to the right edges of the test of last_index_of's result
+    tests = list(option_tests(fa, lambda v_: is_call(v_, BF_LAST_INDEX_OF, "start")))
+    good = False
+    if tests and bo:
+        _, _, some_e, none_e = tests[0]
+        alts = guarded_values(fa, fa.blocks[bo[0]].term["args"][1])
+        z = [db for t_, db in alts if db is not None and term_is_lit(unwrap_ovf(strip(t_)), 0)]
+        nz = [db for t_, db in alts if db is not None and not term_is_lit(unwrap_ovf(strip(t_)), 0)]
+        good = bool(z) and bool(nz) and all(fa.dominates(none_e, d) for d in z) and all(fa.dominates(some_e, d) for d in nz)
+    ctx.check(P, rule, "0 is used only when no block at or below start is held", good, "None => 0, Some(i) => i + 1", "the alternatives of the hole start are not tied to the Some / None edges of last_index_of's result", key="C01|C01.R8|clear|hole start edges")
+    # last block of the hole
+    lasts = [unwrap_ovf(fa.arg_origin(s, 1)) for s in br]
+    def last_ok(t):
+        if not (t[0] == "bin" and t[1] == "Sub" and term_is_lit(t[3], 1)):
+            return False
+        e = t[2]
+        rs = list(e[1]) if e[0] == "join" else [e]
+        ln = [r for r in rs if path_of(strip(r)) == "self.tree.length"]
+        ix = [r for r in rs if r[0] == "some" and is_call(r[1], BF_INDEX_OF, "end")]
+        return len(rs) == 2 and len(ln) == 1 and len(ix) == 1
+    ctx.check(P, rule, "the hole ends right before the nearest held block at or above end", all(last_ok(t) for t in lasts),
+              "last = index_of(true, end).unwrap_or(tree.length) - 1", "clear asks for the byte range of block %s" % [term_str(t)[:110] for t in lasts], key="C01|C01.R8|clear|hole end")
+    tests = list(option_tests(fa, lambda v_: is_call(v_, BF_INDEX_OF, "end")))
+    ctx.check(P, rule, "tree.length is used only when no block at or above end is held", bool(tests), "None => tree.length, Some(i) => i", "no test of index_of's result", key="C01|C01.R8|clear|hole end edges")
+    # bytes: offset = byte_offset(first); length = range(last).index + range(last).length - offset
+    off, ln = fa.arg_origin(bc[0], 1), unwrap_ovf(fa.arg_origin(bc[0], 2))
+    offs = roots(off)
+    good_off = bool(offs) and all(term_has_call(r, MT_BYTE_OFFSET) in bo for r in offs)
+    good_len = False
+    if ln[0] == "bin" and ln[1] == "Sub":
+        a = ln[2]
+        good_len = a[0] == "bin" and a[1] == "Add" and {path_tail(a[2]), path_tail(a[3])} == {"index", "length"} and all(term_has_call(x, BYTE_RANGE_CORE) == br[0] for x in (a[2], a[3])) and term_sig(unwrap_ovf(ln[3])) == term_sig(unwrap_ovf(off))
+    ctx.check(P, rule, "the deleted bytes are [byte_offset(first), end of block last)", good_off and good_len, "BlockStore::clear(offset, range.index + range.length - offset)",
+              "BlockStore::clear receives offset %s and length %s" % (term_str(off)[:80], term_str(ln)[:120]), key="C01|C01.R8|clear|byte hole")
+
+
+def path_tail(t):
+    t = strip(t)
+    return t[2] if t[0] == "field" else None
+
+
+RULES = [r1, r2, r3, r4, r5, r6, r7, r8]
 EXPLANATION = ("C01 (log contents equal an append-only list model across reopen): decides the replay codec agreement of the oplog Entry — each optional section is decoded under the flag bit it was "
                "encoded with, flags 1/2/4/8, same presence conditions in size and encode (R1); replay completeness — every field of Entry reaches its consumer inside the replay loop of Hypercore::new, the "
                "rebuilt changeset is completed, copied into the header and committed, entries are walked in log order, and whether a replay consumer runs for an entry depends only on the entry field it consumes — never on another field such as tree_upgrade (R2); the read gate — every storage read of get() is dominated by bitfield.get(index), the "
